@@ -222,6 +222,8 @@ bool excluded(const char *id)
 
 void count_excluded(const char *id)
 {
+  static std::mutex *mu = new std::mutex();  // targets with real threads call this concurrently
+  std::lock_guard<std::mutex> g(*mu);
   G().excluded_counts[id]++;
 }
 
